@@ -189,7 +189,13 @@ CLAIMS["C13"] = {
             "(getChildForProof): with the pinned rule it does not hold (legacy_lag_witness), defect D13, found on the real code by "
             "lagging readers with a partly warm cache and repaired; hence an instance that still holds an old epoch record answers "
             "the epoch hash and every lookup, history and audit request exactly as the directory did at that epoch, or with an error "
-            "(lagging_requests). The pinned rule was wrong at lag >= 2 (lag2_witness, defect "
+            "(lagging_requests). END TO END (Thm/C13d, lagging_instance): for ANY publish histories h1 and h2 (rejected and no-op "
+            "batches included), the instance that holds the epoch record of the state after h1 and reads the storage of the state "
+            "after h1 ++ h2 answers the epoch hash and every lookup, key-history and audit request exactly as the directory did "
+            "after h1 — i.e. with the pair it published then and the proof it served then, which verifies (C02/C03/C04) — or with "
+            "an error; the storage invariants this needs (every record of an epoch <= current, records stored under their labels, "
+            "the database holds nothing but nodes of the tree) are proved for every state reached by publishes (storeOK_init, "
+            "storeOK_publish). The pinned rule was wrong at lag >= 2 (lag2_witness, defect "
             "D4, repaired). Tied to the Rust by runs with read-only instances lagging 0..3 epochs, compared with the model and "
             "judged by the published-epoch-hash oracle, AND by enumerating all interleavings (bounded preemptions) of read requests "
             "on a second instance with a publish at storage-call granularity — which found that key_history re-read the epoch record "
